@@ -29,6 +29,7 @@ struct event {
     std::uint64_t val;
     int ok;
     std::uint64_t step;
+    std::uint64_t seq;
 };
 
 enum tstate { T_NEW, T_READY, T_RUNNING, T_BLOCKED, T_DONE };
@@ -63,7 +64,8 @@ struct sched {
     bool log_on = true;
     bool log_pre = false;   // also log every access at the moment it is performed
     // user log lines (history), with the step at which they were emitted
-    std::vector<std::pair<std::uint64_t, std::string>> notes;
+    std::vector<std::pair<std::uint64_t, std::string>> notes;   // (seq, text)
+    std::uint64_t seq = 0;
     int deadlock = 0;
     int sleeper = -1;     // thread that just called sleepMs: it gives way to the others
     int rr = 0;
@@ -79,7 +81,7 @@ inline thread_local int my_tid = -1;
 inline void note(const std::string& s) {
     sched& S = sched::get();
     std::lock_guard<std::mutex> lk(S.logm);
-    S.notes.emplace_back(S.steps, s);
+    S.notes.emplace_back(S.seq++, s);
 }
 
 // choose the next thread to run; caller holds S.m
@@ -155,7 +157,7 @@ inline int pick(sched& S, int me) {
         for (int c : cand)
             if (c == me) me_ok = true;
         std::uniform_real_distribution<double> U(0, 1);
-        if (me_ok && U(S.rng) < S.stick) chosen = me;
+        if (me_ok && me != S.sleeper && U(S.rng) < S.stick) chosen = me;
         else chosen = cand[S.rng() % cand.size()];
     }
     if (chosen != S.sleeper && S.sleeper >= 0 && chosen >= 0) { /* someone else runs: the sleeper may wake */ }
@@ -205,7 +207,7 @@ inline void hook_pre(int kind, int obj, const volatile void* addr) {
     if (S.log_pre) {
         // the access happens right after this point, before the next scheduling point
         std::lock_guard<std::mutex> lk2(S.logm);
-        S.log.push_back(event{my_tid, kind, obj, reinterpret_cast<std::uintptr_t>(addr), 0, -1, S.steps});
+        S.log.push_back(event{my_tid, kind, obj, reinterpret_cast<std::uintptr_t>(addr), 0, -1, S.steps, S.seq++});
     }
 }
 
@@ -213,7 +215,7 @@ inline void hook_post(int kind, int obj, const volatile void* addr, std::uint64_
     sched& S = sched::get();
     if (!S.log_on) return;
     std::lock_guard<std::mutex> lk(S.logm);
-    S.log.push_back(event{my_tid, kind, obj, reinterpret_cast<std::uintptr_t>(addr), val, ok, S.steps});
+    S.log.push_back(event{my_tid, kind, obj, reinterpret_cast<std::uintptr_t>(addr), val, ok, S.steps, S.seq++});
 }
 
 inline bool hook_sleep(std::uint64_t ms) {
@@ -223,6 +225,12 @@ inline bool hook_sleep(std::uint64_t ms) {
     if (!S.active) return false;
     std::unique_lock<std::mutex> lk(S.m);
     S.sleeper = my_tid;
+    if (S.mode == 1 && my_tid < static_cast<int>(S.prio.size())) {
+        // a sleeping thread drops below everybody else (otherwise a background loop starves the workers)
+        int mn = 0;
+        for (int p : S.prio) mn = p < mn ? p : mn;
+        S.prio[my_tid] = mn - 1;
+    }
     yield_locked(S, lk, my_tid, false);
     if (S.sleeper == my_tid) S.sleeper = -1;
     return true; // no real sleep under the scheduler
